@@ -74,6 +74,49 @@ fn special_family(rng: &mut Rng, cfg: &GenCfg) -> Option<Vec<Doc>> {
             }
             Some(docs)
         }
+        2 => {
+            // very wide schema position: 40..=140 *distinct* child names (and up to 80 distinct attributes) under one
+            // parent, accumulated over occurrences and documents, some children repeated inside one occurrence
+            let n = rng.range(40, 140);
+            let na = if rng.pct(50) { rng.range(0, 80) } else { 0 };
+            let k = rng.range(1, 3);
+            let mut docs = Vec::new();
+            for _ in 0..k {
+                let mut root = Elem::new("r");
+                let occs = rng.range(1, 3);
+                for _ in 0..occs {
+                    let mut p = Elem::new("p");
+                    for a in 0..na {
+                        if rng.pct(80) {
+                            p.attrs.push(crate::dom::Attr { name: format!("a{a}"), value: "v".into(), quote: b'"' });
+                        }
+                    }
+                    for c in 0..n {
+                        if rng.pct(15) {
+                            continue;
+                        }
+                        let reps = if rng.pct(8) { 2 } else { 1 };
+                        for _ in 0..reps {
+                            let mut e = Elem::new(&format!("c{c}"));
+                            e.selfclose = rng.pct(70);
+                            if rng.pct(10) {
+                                e.kids.push(Node::Text("t".into()));
+                            }
+                            p.kids.push(Node::Elem(e));
+                        }
+                    }
+                    if rng.pct(30) {
+                        // children in another order in this occurrence
+                        let mut kids = std::mem::take(&mut p.kids);
+                        rng.shuffle(&mut kids);
+                        p.kids = kids;
+                    }
+                    root.kids.push(Node::Elem(p));
+                }
+                docs.push(Doc::plain(root));
+            }
+            Some(docs)
+        }
         _ => None,
     }
 }
@@ -145,6 +188,10 @@ fn gen_session(rng: &mut Rng, no_twins: bool, c06: bool) -> Session {
     let bias = rng.pct(35);
     let mut cfg = GenCfg::draw(rng, bias);
     cfg.no_prefix_twins = no_twins;
+    cfg.elem_names.retain(|n| !crate::observe::type_ambiguous(n));
+    if cfg.elem_names.is_empty() {
+        cfg.elem_names.push("a".into());
+    }
     let k = if c06 { rng.range(2, 5) } else { *rng.pick(&[1usize, 1, 2, 2, 3, 3, 4, 5]) };
     let docs = match special_family(rng, &cfg) {
         Some(d) => d,
@@ -165,11 +212,11 @@ fn gen_session(rng: &mut Rng, no_twins: bool, c06: bool) -> Session {
     let in_order: Vec<usize> = (0..k).collect();
     let mut replicas = Vec::new();
     let base: Vec<Step> = in_order.iter().map(|i| Step { input: Input::Doc(*i), plan: Plan::slice(), cfg: 0 }).collect();
-    replicas.push(Replica { role: "baseline".into(), entropy: rng.u128(), steps: base });
+    replicas.push(Replica { role: "baseline".into(), entropy: rng.u128(), steps: base, warmup: vec![] });
     if !c06 {
         if rng.pct(70) {
             let fail = rng.pct(40);
-            replicas.push(Replica { role: "environment-twin".into(), entropy: rng.u128(), steps: env_steps(rng, &docs, &in_order, fail, false) });
+            replicas.push(Replica { role: "environment-twin".into(), entropy: rng.u128(), steps: env_steps(rng, &docs, &in_order, fail, false), warmup: vec![] });
         }
     } else {
         let sweep = k <= 4 && rng.pct(6);
@@ -199,14 +246,14 @@ fn gen_session(rng: &mut Rng, no_twins: bool, c06: bool) -> Session {
                     continue;
                 }
                 let st: Vec<Step> = o.iter().map(|i| Step { input: Input::Doc(*i), plan: Plan::slice(), cfg: 0 }).collect();
-                replicas.push(Replica { role: format!("order-{n}"), entropy: rng.u128(), steps: st });
+                replicas.push(Replica { role: format!("order-{n}"), entropy: rng.u128(), steps: st, warmup: vec![] });
             }
         } else {
             // permuted
             let mut o = in_order.clone();
             rng.shuffle(&mut o);
             let st: Vec<Step> = o.iter().map(|i| Step { input: Input::Doc(*i), plan: Plan::slice(), cfg: 0 }).collect();
-            replicas.push(Replica { role: "permuted".into(), entropy: rng.u128(), steps: st });
+            replicas.push(Replica { role: "permuted".into(), entropy: rng.u128(), steps: st, warmup: vec![] });
             // duplicating: some documents delivered again, at any later point
             let mut o = in_order.clone();
             let dups = rng.range(1, 3);
@@ -226,13 +273,13 @@ fn gen_session(rng: &mut Rng, no_twins: bool, c06: bool) -> Session {
                     Step { input: if again && rewritten_dups { Input::Alt(*i) } else { Input::Doc(*i) }, plan: Plan::slice(), cfg: 0 }
                 })
                 .collect();
-            replicas.push(Replica { role: "duplicating".into(), entropy: rng.u128(), steps: st });
+            replicas.push(Replica { role: "duplicating".into(), entropy: rng.u128(), steps: st, warmup: vec![] });
             // unreliable channel: reordered, empties interleaved, failed deliveries followed by a good redelivery
             let mut o = in_order.clone();
             if rng.pct(60) {
                 rng.shuffle(&mut o);
             }
-            replicas.push(Replica { role: "unreliable-channel".into(), entropy: rng.u128(), steps: env_steps(rng, &docs, &o, true, true) });
+            replicas.push(Replica { role: "unreliable-channel".into(), entropy: rng.u128(), steps: env_steps(rng, &docs, &o, true, true), warmup: vec![] });
         }
     }
     Session { alts, docs, replicas, opts: vec![RenderOpt::preset(false, false, ""), RenderOpt::preset(false, true, "")] }
@@ -295,6 +342,14 @@ fn prepare<'a>(s: &'a Session, ctr: &mut Ctr, need_twin_free: bool) -> Result<Re
     }
     let refs: Vec<&Doc> = s.docs.iter().collect();
     crosscheck_docs(&refs)?;
+    fn string_named(e: &Elem) -> bool {
+        crate::observe::type_ambiguous(&e.name) || e.elems().any(string_named)
+    }
+    if s.docs.iter().any(|d| string_named(&d.root)) {
+        // an element called `string` gets a struct called `String` (alone or through ancestor qualification), which
+        // the rendered text cannot tell from the String type: the observation would be ambiguous (C04's subject)
+        return Ok(Err(skip("element_named_string")));
+    }
     for (d, a) in s.docs.iter().zip(s.alts.iter()) {
         if let Some(a) = a {
             if crate::verdict::structure_of(&a.root) != crate::verdict::structure_of(&d.root) {
